@@ -180,6 +180,27 @@ def run(ctx):
         if not (0 < v7 < 1e-2):
             ctx.known_printed.append(k7[0]["line"])
             ctx.notes.append(f"known finding K7 reproduced on its witness (value {v7}); {len(k7_hits)} sampled evaluations showed it")
+    # ---------------- very long pressure arrays (a 300 x 500 grid of cell pressures, flattened; a year of one-minute gauge data): more
+    # than 65 536 entries above the bubble point in ONE call - every entry, the last ones included, has its own value
+    for nlong in ((150001, 150002, 196613) if ctx.quick else (70001, 150001, 150002, 150003, 196613, 262147, 262148)):
+        T, api, gg, rsi, pb = dom.oil_params(rng)
+        pl = np.linspace(15.0, 2.5 * pb, nlong)
+        sub = np.unique(np.concatenate([[0, 1, nlong - 3, nlong - 2, nlong - 1], rng.choice(nlong, 60, replace=False), np.searchsorted(pl, pb) + np.arange(-2, 3)]))
+        sub = sub[(sub >= 0) & (sub < nlong)]
+        for name in ("b_o_Standing", "density_Standing"):
+            ev += 1
+            got_l = np.asarray(getattr(oil, name)(T, pl, api, gg, rsi), float)
+            want_l = np.array([float(getattr(oil, name)(T, float(pl[j_]), api, gg, rsi)) for j_ in sub])
+            inp_l = dict(function="oil." + name, T=T, api=api, gg=gg, Rsi=rsi, pb=pb, pressures=f"linspace(15, 2.5 pb, {nlong})")
+            if got_l.shape != pl.shape or not np.allclose(got_l[sub], want_l, rtol=1e-10, atol=0):
+                bad_at = int(sub[np.argmax(np.abs(got_l[sub] / want_l - 1))]) if got_l.shape == pl.shape else -1
+                bad(f"oil.{name} on a very long pressure array differs from the scalar call at some entries", dict(**inp_l, index=bad_at, pressure=float(pl[bad_at])),
+                    dict(array_value=float(got_l[bad_at]) if bad_at >= 0 else "shape", scalar_value=float(getattr(oil, name)(T, float(pl[bad_at]), api, gg, rsi)) if bad_at >= 0 else None))
+            above = pl > pb
+            if name == "b_o_Standing" and got_l.shape == pl.shape and np.diff(got_l[above]).max() > 0:
+                j_ = int(np.argmax(np.diff(got_l[above])))
+                bad("oil formation volume factor does not fall with pressure above the bubble point (very long pressure array)", dict(**inp_l, pressure=float(pl[above][j_])),
+                    dict(Bo=float(got_l[above][j_]), Bo_next=float(got_l[above][j_ + 1])))
     ctx.cov.update(evaluations=ev, distinct_nontrivial=n,
                    rule="oils from the box T 80..350, API 12..55, gas gravity 0.56..1.3, GOR 20..2500 with p_b > 50 (incl. box corners); "
                         "pressures 15 psia..2.5 p_b on a grid plus p_b and its two float neighbours")
